@@ -22,7 +22,7 @@ try:
 except Exception:
     LOCALS = {}
 
-PURE_FUNCS = {"get_vars", "get_cache", "get_store", "state_types_registry", "command_registry", "quote", "unquote", "join_key", "key_name", "key_extension", "len", "type", "isinstance", "str", "bool", "int", "float", "repr", "tuple", "list", "dict", "set", "sorted", "min", "max", "any", "all"}
+PURE_FUNCS = {"is_remote_registration_enabled", "get_vars", "get_cache", "get_store", "state_types_registry", "command_registry", "quote", "unquote", "join_key", "key_name", "key_extension", "len", "type", "isinstance", "str", "bool", "int", "float", "repr", "tuple", "list", "dict", "set", "sorted", "min", "max", "any", "all"}
 # methods without side effects in this code base (path constructors, printers, accessors)
 PURE_METHODS = {"clone", "copy", "as_dict", "get_metadata", "get_bytes", "decode", "as_bytes", "from_bytes", "listdir", "listdir_keys",
                 "to_root_key", "translate_key", "route_to", "is_supported", "read_only", "parent", "with_name", "joinpath", "path_for_key", "metadata_path_for_key", "to_path", "encode", "get", "segment_name", "is_volatile", "is_dir", "contains",
@@ -76,6 +76,50 @@ def _blocks_of(node):
             yield b
     for h in getattr(node, "handlers", []) or []:
         yield h.body
+
+
+def _absorb_tail_into_if(fn, known):
+    """`if c: A else: B` followed by a short tail T that is the rest of its block, where T reads a local the reference function does
+    not have and both branches assign it: T is copied to the end of both branches (`if c: A; T else: B; T`) so that the branch-local
+    definitions can be substituted. Always behaviour-preserving; a branch that ends in return/raise/break/continue gets no copy."""
+    import copy
+    for node in ast.walk(fn):
+        for b in _blocks_of(node):
+            for i, st in enumerate(b):
+                if not (isinstance(st, ast.If) and st.orelse):
+                    continue
+                tail = b[i + 1:]
+                if not tail or len(tail) > 4 or any(isinstance(x, (ast.FunctionDef, ast.AsyncFunctionDef, ast.ClassDef)) for x in tail):
+                    continue
+                # the block must be the body of the function or end in a return (so that nothing after the tail is affected): any block qualifies,
+                # the statements after an if run after either branch
+                def last_branches(s_):
+                    out = []
+                    for blk in (s_.body, s_.orelse):
+                        if len(blk) == 1 and isinstance(blk[0], ast.If) and blk[0].orelse and blk is s_.orelse:
+                            out += last_branches(blk[0])      # elif chain
+                        else:
+                            out.append(blk)
+                    return out
+                branches = last_branches(st)
+                assigned_all = None
+                for blk in branches:
+                    if blk and isinstance(blk[-1], (ast.Return, ast.Raise, ast.Break, ast.Continue)):
+                        continue
+                    names = {n.targets[0].id for n in blk if isinstance(n, ast.Assign) and len(n.targets) == 1 and isinstance(n.targets[0], ast.Name)}
+                    assigned_all = names if assigned_all is None else assigned_all & names
+                cands = {t for t in (assigned_all or set()) if t not in known}
+                reads = {n.id for x in tail for n in ast.walk(x) if isinstance(n, ast.Name) and isinstance(n.ctx, ast.Load)}
+                if not (cands & reads):
+                    continue
+                for blk in branches:
+                    if blk and isinstance(blk[-1], (ast.Return, ast.Raise, ast.Break, ast.Continue)):
+                        continue
+                    blk.extend(copy.deepcopy(tail))
+                del b[i + 1:]
+                ast.fix_missing_locations(fn)
+                return 1
+    return 0
 
 
 def _eliminate_alias(fn, known):
@@ -168,12 +212,31 @@ def _inline_new_locals(fn, known, limit=None):
                 for i, st in enumerate(b):
                     if isinstance(st, ast.Assign) and len(st.targets) == 1 and isinstance(st.targets[0], ast.Name):
                         t = st.targets[0].id
-                        if t in known or t in nested_names or stores.get(t) != 1 or not _is_pure(st.value):
+                        if t in known or t in nested_names or not _is_pure(st.value):
                             continue
                         rest = b[i + 1:]
                         uses_rest = [n for s2 in rest for n in ast.walk(s2) if isinstance(n, ast.Name) and n.id == t]
                         uses_all = [n for n in ast.walk(fn) if isinstance(n, ast.Name) and n.id == t and isinstance(n.ctx, ast.Load)]
-                        if len(uses_rest) != len(uses_all) or not uses_all:
+                        if stores.get(t) != 1:
+                            # several definitions (one per branch after tail absorption): each must own its reads - no store of t in this
+                            # definition's rest-of-block, and every read of t in the function lies in the rest-of-block of exactly one definition
+                            if any(isinstance(n, ast.Name) and n.id == t and isinstance(n.ctx, (ast.Store, ast.Del)) for s2 in rest for n in ast.walk(s2)):
+                                continue
+                            owned = set()
+                            fine = True
+                            for node2 in ast.walk(fn):
+                                for b2 in _blocks_of(node2):
+                                    for j2, st2 in enumerate(b2):
+                                        if isinstance(st2, ast.Assign) and len(st2.targets) == 1 and isinstance(st2.targets[0], ast.Name) and st2.targets[0].id == t:
+                                            mine = {id(n) for s3 in b2[j2 + 1:] for n in ast.walk(s3) if isinstance(n, ast.Name) and n.id == t and isinstance(n.ctx, ast.Load)}
+                                            if mine & owned:
+                                                fine = False
+                                            owned |= mine
+                            n_assign = sum(1 for n in ast.walk(fn) if isinstance(n, ast.Assign) and len(n.targets) == 1 and isinstance(n.targets[0], ast.Name) and n.targets[0].id == t)
+                            if not fine or owned != {id(n) for n in uses_all} or n_assign != stores.get(t) or not uses_rest:
+                                continue
+                            uses_all = [n for n in uses_rest if isinstance(n.ctx, ast.Load)]
+                        elif len(uses_rest) != len(uses_all) or not uses_all:
                             continue
                         if isinstance(st.value, (ast.List, ast.Dict, ast.Set, ast.ListComp, ast.DictComp, ast.SetComp)) or \
                                 (isinstance(st.value, ast.Call) and isinstance(st.value.func, ast.Name) and st.value.func.id in ("list", "dict", "set")):
@@ -663,6 +726,12 @@ def canonicalise(repo):
                 k = _fold_constants(fn)
                 if k:
                     done.append((m.name, fn.name, "<constants folded>", k))
+    for m in repo.modules.values():
+        for fn in ast.walk(m.tree):
+            if isinstance(fn, (ast.FunctionDef, ast.AsyncFunctionDef)):
+                k = _ifexp_statements(fn)
+                if k:
+                    done.append((m.name, fn.name, "<conditional expressions as statements>", k))
     # (2) rename table and (3) new locals, interleaved: a substitution may complete the defining form of another local
     def rename_pass(modname, qual, fn, ent):
         for _ in range(3):     # a few rounds: patterns mention other locals only as metavariables, so one is usually enough
@@ -695,7 +764,7 @@ def canonicalise(repo):
         for _ in range(12):
             if ent:
                 rename_pass(modname, qual, fn, ent)
-            k = _eliminate_alias(fn, known) or _inline_new_locals(fn, known - set(), limit=1)
+            k = _absorb_tail_into_if(fn, known) or _eliminate_alias(fn, known) or _inline_new_locals(fn, known - set(), limit=1)
             if not k:
                 break
             done.append((modname, qual, "<new local substituted>", k))
